@@ -135,6 +135,7 @@ structure SBox where
   scalarLen : Nat          -- len(ScalarString()) in bytes
   typ : String             -- Type()
   firstSubst : Bool        -- len(Value) > 0 && Value[0].Substitution != nil  (unquoted only)
+  nBoxes : Nat := 0        -- len(Value)  (unquoted only)
   json : T
   deriving Inhabited
 
@@ -380,7 +381,7 @@ def finishUnquoted (start : Pos) (st : UQState) : Option SBox :=
   let mk (value : List IBox) : SBox :=
     { kind := .uq, range := ⟨start, st.lastNonSpace⟩, scalar := scalarOf value,
       scalarLen := (scalarOf value).utf8ByteSize, typ := "unquoted string",
-      firstSubst := firstIsSubst value,
+      firstSubst := firstIsSubst value, nBoxes := value.length,
       json := .node "uq" ⟨start, st.lastNonSpace⟩
         [("v", .arr (value.map (·.2))), ("pat", match pattern with | some p => .arr (p.map .bytes) | none => .null)] }
   if sv.isEmpty then
@@ -1133,8 +1134,10 @@ def parseValueBody (isNum : String → Bool) (pv : P VBox) : P VBox := do
         replay r
         match ← parseStringVal with
         | none => pure VBox.none
-        | some sb =>
+        | some sb => do
+          let guard := (← get).cfg.valueSubstGuard
           if sb.kind ≠ .uq then pure (strVBox sb)
+          else if guard && sb.nBoxes > 1 then pure (strVBox sb)
           else
             if equalFoldKw sb.scalar "null" then pure ⟨.null, .node "null" sb.range [], "null", true, false, none⟩
             else if equalFoldKw sb.scalar "suspend" then
